@@ -15,8 +15,8 @@ type persistentPriorityQueue[T any] struct {
 }
 
 func newPersistentPriorityQueue[T any](w *worker[T, iJob[T]], pq IPersistentPriorityQueue) PersistentPriorityQueue[T] {
-	w.queues.Register(pq)
-
+	// newPriorityQueue registers pq with the worker; registering it here as well made the queue
+	// count twice in NumPending and take a double share of round-robin dispatches
 	return &persistentPriorityQueue[T]{
 		priorityQueue: newPriorityQueue(w, pq),
 	}
